@@ -1442,13 +1442,14 @@ func FunExpr(query *Query, current Map, expr *sqlparser.FuncExpr, opts ...ExprOp
 			var rs any
 			query.wg.Add(1)
 			go func() {
+				defer query.wg.Done()
+				defer query.recoverInGoroutine()
 				// the error stays in this goroutine: the caller has long returned
 				value, err := function(query, current, nil, slice)
 				if err != nil && query.options.errors != nil {
 					query.options.errors(err)
 				}
 				rs = value
-				query.wg.Done()
 			}()
 			return &rs, nil
 		}
@@ -1462,6 +1463,7 @@ func FunExpr(query *Query, current Map, expr *sqlparser.FuncExpr, opts ...ExprOp
 				return nil, e
 			}
 			go func() {
+				defer query.recoverInGoroutine()
 				_, err := function(query, current, nil, slice)
 				if err != nil {
 					if query.options.errors != nil {
@@ -1482,13 +1484,14 @@ func FunExpr(query *Query, current Map, expr *sqlparser.FuncExpr, opts ...ExprOp
 			}
 			query.wg.Add(1)
 			go func() {
+				defer query.wg.Done()
+				defer query.recoverInGoroutine()
 				_, err := function(query, current, nil, slice)
 				if err != nil {
 					if query.options.errors != nil {
 						query.options.errors(err)
 					}
 				}
-				query.wg.Done()
 			}()
 			return Ommit(true), nil
 		}
@@ -1801,6 +1804,16 @@ func ExecOrderBy(query *Query, current []any) ([]any, error) {
 		return nil, err
 	}
 	return current, nil
+}
+
+// recoverInGoroutine keeps a function that panics in a goroutine of its own (ASYNC, SPIN,
+// SPINASYNC) from ending the host process; the panic is reported like an error of that call
+func (query *Query) recoverInGoroutine() {
+	if r := recover(); r != nil {
+		if query.options.errors != nil {
+			query.options.errors(recovered(r))
+		}
+	}
 }
 
 // recovered turns the value of a recovered panic into an error (a panic value need not be one)
